@@ -305,6 +305,12 @@ impl KeyMaterial {
     }
   }
 
+  /// symmetric key parsed from a hexadecimal string by the library's own `Key::<32>::try_from(&str)`
+  pub fn local_from_hex(proto: Proto, hex_key: &str) -> Result<KeyMaterial, LibErr> {
+    let k = Key::<32>::try_from(hex_key).map_err(|e| LibErr::other(format!("hex key rejected: {e:?}")))?;
+    Ok(KeyMaterial { proto, sym: Some(k), ed_sk: None, ed_pk: None, p_sk: None, p_pk: None, rsa_sk: None, rsa_pk: None })
+  }
+
   pub fn local(proto: Proto, key: &[u8; 32]) -> KeyMaterial {
     KeyMaterial::new(proto, Some(key), key).expect("32 bytes")
   }
